@@ -295,6 +295,9 @@ def run(tier='quick'):
                           'statement of the connection', floor=100)
     from . import c14 as _c14
     _c14.immediate_statements(prog, eff, chk, B13)
+    B14 = chk.rule('B14', 'the multi-statement table operations (playlist_table::add / update / remove, playlist_entity_table::add_back) rely on the transaction guard: BEGIN, COMMIT with the flag set only after it succeeded, ROLLBACK exactly when not committed', floor=4)
+    from . import c14 as _c14g
+    _c14g._guard_shape(prog, eff, chk, B14)
     return chk.finish('statement-level analysis of the five 2.x table classes: %d statement instances '
                       'parsed from string literals, binds and sinks resolved to row fields through the '
                       'type-checked AST, names resolved against the DDL of all %d 2.x versions' % (
